@@ -328,6 +328,31 @@ func kindIsMappingAt(info *types.Info, body *ast.BlockStmt, node types.Object, a
 					}
 				}
 			case *ast.SwitchStmt:
+				if !contains && s.Tag != nil && isKindSel(s.Tag) {
+					// switch node.Kind { case yaml.MappingNode: <falls out> ; default: return ... }:
+					// control continues after the switch only with Kind == MappingNode
+					hasDefault, allOthersLeave, mappingFallsOut := false, true, false
+					for _, cc := range s.Body.List {
+						cl := cc.(*ast.CaseClause)
+						onlyMapping := len(cl.List) == 1 && isMapping(cl.List[0])
+						if cl.List == nil {
+							hasDefault = true
+						}
+						if onlyMapping {
+							mappingFallsOut = true
+							continue
+						}
+						// inside a switch clause `break` only leaves the switch: demand a return
+						if n := len(cl.Body); n == 0 {
+							allOthersLeave = false
+						} else if _, isRet := cl.Body[n-1].(*ast.ReturnStmt); !isRet {
+							allOthersLeave = false
+						}
+					}
+					if hasDefault && allOthersLeave && mappingFallsOut {
+						ok = true
+					}
+				}
 				if contains {
 					for _, cc := range s.Body.List {
 						cl := cc.(*ast.CaseClause)
